@@ -98,6 +98,7 @@ func computeRenames(p *Prog) {
 	}
 	pinnedByName = pinned
 	recordedOrderMemo = map[*ssa.Function][]int{}
+	paramRenamedMemo = map[*ssa.Function][]int{}
 	current := map[string]*ssa.Function{}
 	for _, f := range namedFuncs(p) {
 		n := f.String()
@@ -186,6 +187,124 @@ func computeRenames(p *Prog) {
 		}
 		RenameNotes = append(RenameNotes, strings.ReplaceAll(n, ModPath+"/", "")+" -> "+strings.ReplaceAll(best.String(), ModPath+"/", ""))
 	}
+	// second pass, for recorded names still missing: the function was renamed and its parameter list reworked on
+	// the way (a parameter now derived inside, another added, the receiver made a parameter). It is recognised
+	// by its results and by what it calls: same package, same result types, at least three recorded callees of
+	// which it still makes most, and no other new function that close. Parameters are then matched by name.
+	for _, n := range gone {
+		if restored[n] != nil {
+			continue
+		}
+		old := pinned[n]
+		if len(old.Callees) < 3 {
+			continue
+		}
+		var best *ssa.Function
+		bestScore, second := -1.0, -1.0
+		for _, f := range fresh {
+			if taken[f] {
+				continue
+			}
+			id := identityOf(f)
+			if id.Pkg != old.Pkg || resultsOf(id.Sig) != resultsOf(old.Sig) {
+				continue
+			}
+			if old.Recv != "" && id.Recv != "" && id.Recv != old.Recv {
+				continue
+			}
+			sc := jaccard(old.Callees, id.Callees)
+			switch {
+			case sc > bestScore:
+				best, bestScore, second = f, sc, bestScore
+			case sc > second:
+				second = sc
+			}
+		}
+		if best == nil || bestScore < 0.6 || bestScore-second < 0.2 {
+			continue
+		}
+		taken[best] = true
+		renamed[best.String()] = n
+		restored[n] = best
+		RenameNotes = append(RenameNotes, strings.ReplaceAll(n, ModPath+"/", "")+" -> "+strings.ReplaceAll(best.String(), ModPath+"/", "")+" (parameters reworked)")
+	}
+	// third pass: recognised by who calls it. Every function that called the missing one in the recorded tree and
+	// still exists now calls the same new function instead, and that function returns what the missing one did.
+	for _, n := range gone {
+		if restored[n] != nil {
+			continue
+		}
+		old := pinned[n]
+		var callers []*ssa.Function
+		for _, pf := range tab {
+			for _, cal := range pf.Callees {
+				if cal == n {
+					if cf := current[pf.Name]; cf != nil {
+						callers = append(callers, cf)
+					} else if cf := restored[pf.Name]; cf != nil {
+						callers = append(callers, cf)
+					}
+				}
+			}
+		}
+		if len(callers) == 0 {
+			continue
+		}
+		var cands []*ssa.Function
+		for _, f := range fresh {
+			if taken[f] {
+				continue
+			}
+			id := identityOf(f)
+			if id.Pkg != old.Pkg || resultsOf(id.Sig) != resultsOf(old.Sig) {
+				continue
+			}
+			all := true
+			for _, cf := range callers {
+				has := false
+				for _, cal := range identityOf(cf).Callees {
+					if cal == f.String() {
+						has = true
+					}
+				}
+				if !has {
+					all = false
+				}
+			}
+			if all {
+				cands = append(cands, f)
+			}
+		}
+		if len(cands) != 1 {
+			continue
+		}
+		best := cands[0]
+		taken[best] = true
+		renamed[best.String()] = n
+		restored[n] = best
+		RenameNotes = append(RenameNotes, strings.ReplaceAll(n, ModPath+"/", "")+" -> "+strings.ReplaceAll(best.String(), ModPath+"/", "")+" (called in its place; parameters reworked)")
+	}
+}
+
+// resultsOf: the result part of a printed signature, names removed.
+func resultsOf(sig string) string {
+	s := stripParamNames(sig)
+	if !strings.HasPrefix(s, "func(") {
+		return s
+	}
+	depth := 0
+	for i := len("func(") - 1; i < len(s); i++ {
+		switch s[i] {
+		case '(', '[', '{':
+			depth++
+		case ')', ']', '}':
+			depth--
+			if depth == 0 {
+				return strings.TrimSpace(s[i+1:])
+			}
+		}
+	}
+	return s
 }
 
 func jaccard(a, b []string) float64 {
@@ -246,7 +365,7 @@ var pinnedFieldsJSON []byte
 
 // PinnedStruct is the recorded field list of one named struct type.
 type PinnedStruct struct {
-	Type   string     `json:"type"` // pkgpath.Name
+	Type   string      `json:"type"` // pkgpath.Name
 	Fields [][2]string `json:"fields"`
 }
 
@@ -621,16 +740,50 @@ var recvDropped = map[*ssa.Function]bool{}
 var pinnedByName = map[string]PinnedFunc{}
 var recordedOrderMemo = map[*ssa.Function][]int{}
 
+// paramRenamedMemo: recorded functions whose parameters keep their positions (some were renamed).
+var paramRenamedMemo = map[*ssa.Function][]int{}
+
+// RecordedParamName: the name the parameter had in the recorded function (its own name when it had none or the
+// function is not a recorded one).
+func RecordedParamName(p *ssa.Parameter) string {
+	fn := p.Parent()
+	if fn == nil {
+		return p.Name()
+	}
+	pf, ok := pinnedByName[recordedString(fn.String())]
+	if !ok {
+		return p.Name()
+	}
+	o := recordedOrder(fn)
+	if o == nil {
+		o = paramRenamedMemo[fn]
+	}
+	names := recordedParamNames(pf)
+	for i, j := range o {
+		if j >= 0 && j < len(fn.Params) && fn.Params[j] == p && i < len(names) && names[i] != "" {
+			return names[i]
+		}
+	}
+	return p.Name()
+}
+
 // recordedParamNames: the parameter names of a recorded function in order, the receiver (unnamed, "") first for a
 // method.
 func recordedParamNames(pf PinnedFunc) []string {
-	var out []string
+	n, _ := recordedParams(pf)
+	return n
+}
+
+// recordedParams: names and printed types of the recorded parameters (the receiver first, unnamed).
+func recordedParams(pf PinnedFunc) ([]string, []string) {
+	var out, typs []string
 	if pf.Recv != "" {
 		out = append(out, "")
+		typs = append(typs, pf.Recv)
 	}
 	sig := pf.Sig
 	if !strings.HasPrefix(sig, "func(") {
-		return out
+		return out, typs
 	}
 	depth, start := 0, len("func(")
 	end := -1
@@ -649,11 +802,11 @@ func recordedParamNames(pf PinnedFunc) []string {
 		}
 	}
 	if end < 0 {
-		return out
+		return out, typs
 	}
 	body := sig[start:end]
 	if strings.TrimSpace(body) == "" {
-		return out
+		return out, typs
 	}
 	depth = 0
 	last := 0
@@ -674,13 +827,14 @@ func recordedParamNames(pf PinnedFunc) []string {
 	parts = append(parts, body[last:])
 	for _, p := range parts {
 		p = strings.TrimSpace(p)
-		name := ""
+		name, typ := "", p
 		if j := strings.IndexByte(p, ' '); j > 0 && isPlainIdent(p[:j]) && p[:j] != "func" && p[:j] != "chan" && p[:j] != "map" && p[:j] != "interface" && p[:j] != "struct" {
-			name = p[:j]
+			name, typ = p[:j], strings.TrimSpace(p[j+1:])
 		}
 		out = append(out, name)
+		typs = append(typs, typ)
 	}
-	return out
+	return out, typs
 }
 
 // recordedOrder: for a function that stands for a recorded one, the index of the current parameter for each
@@ -699,7 +853,7 @@ func recordedOrder(fn *ssa.Function) []int {
 	if !ok {
 		return nil
 	}
-	names := recordedParamNames(pf)
+	names, typs := recordedParams(pf)
 	order := make([]int, len(names))
 	identity := len(names) == len(fn.Params)
 	q := func(p *types.Package) string { return p.Path() }
@@ -734,7 +888,44 @@ func recordedOrder(fn *ssa.Function) []int {
 			identity = false
 		}
 	}
+	// a recorded name that is gone: the parameter was renamed if exactly one parameter no recorded name claims has
+	// the recorded type (and no other orphaned recorded parameter has that type)
+	claimed := map[int]bool{}
+	for _, j := range order {
+		if j >= 0 {
+			claimed[j] = true
+		}
+	}
+	for i := range names {
+		if order[i] >= 0 || names[i] == "" {
+			continue
+		}
+		rivals := 0
+		for i2 := range names {
+			if i2 != i && order[i2] < 0 && typs[i2] == typs[i] {
+				rivals++
+			}
+		}
+		cand, nc := -1, 0
+		for j, p := range fn.Params {
+			if !claimed[j] && recordedTypes(types.TypeString(p.Type(), q)) == typs[i] {
+				cand = j
+				nc++
+			}
+		}
+		if rivals == 0 && nc == 1 {
+			order[i] = cand
+			claimed[cand] = true
+		}
+	}
+	identity = len(names) == len(fn.Params)
+	for i, j := range order {
+		if i != j {
+			identity = false
+		}
+	}
 	if identity {
+		paramRenamedMemo[fn] = order
 		return nil
 	}
 	// names that are all gone (parameters renamed wholesale): fall back to positions
@@ -768,4 +959,13 @@ func ParamAt(fn *ssa.Function, recordedIdx int) *ssa.Parameter {
 		return nil
 	}
 	return fn.Params[i]
+}
+
+// IsRecorded: fn is (or stands for) a function of the recorded tree.
+func (p *Prog) IsRecorded(fn *ssa.Function) bool {
+	if fn == nil {
+		return false
+	}
+	_, ok := pinnedByName[recordedString(fn.String())]
+	return ok
 }
